@@ -142,6 +142,21 @@ class EvolveAppTask(BaseEvolutionTask):
             graph=graph,
             hinted=hinted)
 
+        # An app with migrations left to apply needs the upgrade to run, even
+        # if it has no evolutions or new models of its own.
+        pending_migration_app_labels = set(
+            migration_target[0]
+            for batch in batches
+            if batch['type'] == UpgradeMethod.MIGRATIONS
+            for migration_target in batch['migration_targets']
+        )
+
+        for task in tasks:
+            if (not task.evolution_required and
+                task.app_label in pending_migration_app_labels):
+                task.evolution_required = True
+                task.can_simulate = True
+
         # Set some state that execute_tasks() and unit tests can get to.
         evolver._evolve_app_task_state = {
             # These are used for the execution stage.
